@@ -36,7 +36,7 @@ add("C01", "c_updates",
 add("C02", "c_updates",
     [T("TestC02", 30000, 200000, env=BUBBLE)],
     pre=["TestC02Regression"],
-    rule="finite logs (<=10 common pts entries incl. deletes/reads/edits with pts_count 1..3, <=4 qts entries, <=2 channels x <=7 entries) delivered with loss/dup/reorder through the real Manager in a bubble, recovery by gap timer / idle timer / updatesTooLong / channelTooLong, differences whole or sliced (limit 1..3); non-trivial = a recovering difference carried a pts/qts-bearing entry in other_updates or was sliced; distinct by step list",
+    rule="containers and differences carry min entities in 1/3 of the cases, and in half of those the access-hash store the client completes them from is down (lookups of the tracked channels themselves always succeed); finite logs (<=10 common pts entries incl. deletes/reads/edits with pts_count 1..3, <=4 qts entries, <=2 channels x <=7 entries) delivered with loss/dup/reorder through the real Manager in a bubble, recovery by gap timer / idle timer / updatesTooLong / channelTooLong, differences whole or sliced (limit 1..3); non-trivial = a recovering difference carried a pts/qts-bearing entry in other_updates or was sliced; distinct by step list",
     technique="stateful PBT against a reference server log (rapid + synctest): delivered multiset must cover the log after recovery",
     text="After the drawn recovery plus two idle periods of virtual time every log entry must have reached the handler (and C01's at-most-once is re-checked). Sampled search.",
     note="Trusts the simulated difference semantics; unknown-peer shortcuts are disabled by construction (messages carry no user peers).",
@@ -46,7 +46,7 @@ add("C03", "c_updates",
     [T("TestC03", 6000, 50000, env=BUBBLE)],
     pre=["TestC03Regression"],
     level="fault_enumeration",
-    rule="C02's histories plus too-long difference answers, channels unknown to the initial storage (the client learns them from the first pushed update, which travels without seq; entries before that update are not owed) and getChannelDifference latency 0/50 ms/2 s, so that a crash can fall between the client hearing of a channel and its worker's first answer; every StateStorage write and handler call is recorded in one totally ordered trace; crash points = every trace index for traces <= 12 events, otherwise 6 drawn indexes + 6 drawn indexes just after storage writes, always the quiescent point after an unknown channel was introduced; each crash point restarts a second Manager from the storage snapshot at that index and recovers. non-trivial = a crash point directly after a handler call or difference answer (i.e. strictly between delivery and the next write, or inside a difference); distinct by steps+crash points",
+    rule="C02's histories plus too-long difference answers, a directly constructed class (1/10: a channel moving in steps of 120 positions, a pushed updateChannelTooLong too far ahead to fetch, an idle difference that recovers it, later a channelDifferenceTooLong; drawn steps follow), channels unknown to the initial storage (the client learns them from the first pushed update, which travels without seq; entries before that update are not owed) and getChannelDifference latency 0/50 ms/2 s, so that a crash can fall between the client hearing of a channel and its worker's first answer; every StateStorage write and handler call is recorded in one totally ordered trace; crash points = every trace index for traces <= 12 events, otherwise 6 drawn indexes + 6 drawn indexes just after storage writes, always the quiescent point after an unknown channel was introduced; each crash point restarts a second Manager from the storage snapshot at that index and recovers. non-trivial = a crash point directly after a handler call or difference answer (i.e. strictly between delivery and the next write, or inside a difference); distinct by steps+crash points",
     technique="crash-point enumeration over generated histories (rapid + synctest), trace invariant + restart-and-recover oracle",
     text="Oracle 1: after each write the saved pts/qts/channel pts covers only entries already delivered or reported too long by callback. Oracle 2: delivered(run1 up to crash) U delivered(run2) covers the log minus reported ranges. Crash points are sampled for long traces, complete for short ones.",
     note="Crash model: the process stops between two recorded events; storage writes are atomic (the StateStorage contract).",
